@@ -132,7 +132,7 @@ WIDE1 = ("SELECT STR_TO_DATE(s, '%Y-%m-%d') AS d1, DATE_TO_DI(d) AS i1, DI_TO_DA
          "TIME_TO_STR(t, '%Y') AS y, STR_TO_UNIX(s, '%Y-%m-%d') AS u, UNIX_TO_STR(u, '%Y') AS us, DATE_ADD(d, 1) AS d4, DATE_TRUNC('day', d) AS dt FROM t")
 WIDE2 = ("SELECT CAST(a AS TEXT) AS c, b || c AS cc, ARRAY(1, 2) AS arr, JSON_EXTRACT(j, '$.a') AS je, JSON_EXTRACT_SCALAR(j, '$.b[0]') AS js, SAFE_DIVIDE(a, b) AS sd, "
          "IF(a > 1, 1, 0) AS f, x ILIKE 'y' AS il, APPROX_DISTINCT(a) AS ad, LEVENSHTEIN(p, q) AS lv, a DIV b AS fd, TRY_CAST(z AS INT) AS tc FROM t LIMIT 5")
-ALL_DIALECTS = ["athena", "bigquery", "clickhouse", "databricks", "doris", "dremio", "drill", "druid", "duckdb", "dune", "exasol", "fabric", "hive", "materialize", "mysql",
+ALL_DIALECTS = ["athena", "bigquery", "clickhouse", "databricks", "dax", "doris", "dremio", "drill", "druid", "duckdb", "dune", "exasol", "fabric", "hive", "materialize", "mysql",
                 "oracle", "postgres", "presto", "prql", "redshift", "risingwave", "singlestore", "snowflake", "solr", "spark", "spark2", "sqlite", "starrocks", "tableau",
                 "teradata", "trino", "tsql"]
 for _d in ALL_DIALECTS:
